@@ -346,6 +346,8 @@ func writeEvidence(verifDir, prop, tier string, level string, seed int, wall flo
 // itself, so that a change breaking it is reported under every property it breaks.
 var borrowCache = map[string]*PropResult{}
 
+var borrowInProgress = map[string]bool{}
+
 func (r *Run) Borrow(fromProp string, rules map[string]string) {
 	key := r.P.Cfg.String() + "|" + fromProp
 	src, ok := borrowCache[key]
@@ -357,8 +359,15 @@ func (r *Run) Borrow(fromProp string, rules map[string]string) {
 			rc.Done()
 			return
 		}
+		if borrowInProgress[key] {
+			// a cycle of borrowing (A shares a rule of B, B one of A): the inner run does not need the
+			// outer property's rules to produce its own
+			return
+		}
+		borrowInProgress[key] = true
 		sub := newRun(r.P, fromProp, r.Tier)
 		def.Run(sub)
+		delete(borrowInProgress, key)
 		src = sub.Res
 		borrowCache[key] = src
 	}
